@@ -83,7 +83,9 @@ def oracle(tier, rng, deep=False):
             ref = Est(alpha=alpha, tol=1e-10).fit(X, y)
             for name, Xv, tolv in [("CSR", sparse.csr_matrix(X), 1e-6), ("list", X.tolist(), 1e-8), ("float32", X.astype(np.float32), 2e-3),
                                    ("C-order", np.ascontiguousarray(X), 1e-8)]:
-                est = Est(alpha=alpha, tol=1e-10).fit(Xv, y)
+                # float32: a tolerance that single precision can reach (1e-10 is below the resolution of the float32 criterion:
+                # the run then never stops on its tolerance and the comparison is about rounding drift, not about storage)
+                est = Est(alpha=alpha, tol=1e-10 if name != "float32" else 1e-5).fit(Xv, y)
                 ev += 1
                 if not np.allclose(np.ravel(est.coef_), np.ravel(ref.coef_), rtol=tolv, atol=tolv):
                     failures.append(dict(site=f"estimator-{name}-differs:{Est.__name__}", input=dict(X=X.tolist(), y=y.tolist(), alpha=alpha),
